@@ -38,6 +38,8 @@ pub enum Act {
     /// the operation through an uncached handle ("another process"): the cache is not told
     Uncached(Op),
     TruncateCached,
+    /// 16 bytes are appended to a cached file (its size exceeds the repository's)
+    ExtendCached,
     ForeignCached,
     PlantJunk,
 }
@@ -179,6 +181,7 @@ impl SeqModel for C19 {
         }
         if !self.cached_files(&s.cache, "snapshots").is_empty() || !self.cached_files(&s.cache, "index").is_empty() {
             v.push(Act::TruncateCached);
+            v.push(Act::ExtendCached);
             v.push(Act::ForeignCached);
         }
         v.push(Act::PlantJunk);
@@ -288,7 +291,7 @@ impl SeqModel for C19 {
                 }
                 n.store = after;
             }
-            Act::TruncateCached | Act::ForeignCached => {
+            Act::TruncateCached | Act::ExtendCached | Act::ForeignCached => {
                 let mut files = self.cached_files(&s.cache, "snapshots");
                 files.extend(self.cached_files(&s.cache, "index"));
                 files.sort();
@@ -300,6 +303,8 @@ impl SeqModel for C19 {
                     }
                     e.data = Some(if matches!(a, Act::TruncateCached) {
                         d[..d.len() / 2].to_vec()
+                    } else if matches!(a, Act::ExtendCached) {
+                        [&d[..], b"SIXTEEN MORE BYTE"].concat()
                     } else {
                         // a file of the same name and size from "another repository": different bytes
                         d.iter().map(|b| b ^ 0x5a).collect()
@@ -326,7 +331,7 @@ pub fn run(args: &Args, rep: &mut Report) {
     let dir = sandbox(&format!("c19-{}", args.shard));
     let quick = args.quick();
     let depth = if quick { 3 } else { 4 };
-    rep.set_meta("bounds", json!(format!("BFS depth {depth} from two initial states (empty; two snapshots with a filled cache) over {{backup, get_all_snapshots, get_snapshots([full id]), forget, prune, check trust-cache/not, read all snapshots}} through a cached handle (each compared with an uncached twin on a clone of the repository) and {{backup, forget, prune}} through an uncached handle, plus cache faults: truncate a cached file, replace it by other bytes of the same size, plant junk (`xyz`, upper-case hex, `-tmp-`, a well-formed name the repository lacks)")));
+    rep.set_meta("bounds", json!(format!("BFS depth {depth} from two initial states (empty; two snapshots with a filled cache) over {{backup, get_all_snapshots, get_snapshots([full id]), forget, prune, check trust-cache/not, read all snapshots}} through a cached handle (each compared with an uncached twin on a clone of the repository) and {{backup, forget, prune}} through an uncached handle, plus cache faults: truncate a cached file, append 16 bytes to it, replace it by other bytes of the same size, plant junk (`xyz`, upper-case hex, `-tmp-`, a well-formed name the repository lacks)")));
     let m = C19 { raw, dir: dir.clone() };
     bfs(&m, depth, 100_000, args, rep);
     _ = fs::remove_dir_all(&dir);
